@@ -1,3 +1,4 @@
+import Oidc.Shapes
 import Oidc.Proofs.World
 import Oidc.Proofs.WorldHist2
 import Oidc.Proofs.Jwt
@@ -67,5 +68,12 @@ theorem accept_interval (f : Jwt.Facts) (issuer clientID : String) (keys : List 
 
 /-- obligation against the regenerated facts (chunk size positive, 24 h lifetime) -/
 theorem facts_ok : Oidc.Facts.GoodSession := by decide
+
+/-! obligations against the regenerated program text of session.go: the functions these theorems rest on read, statement for
+    statement, as they did when the session model was written after them (`Oidc/Shapes.lean`) -/
+theorem text_SessionManager_GetSession_ok : Oidc.Shapes.Text_SessionManager_GetSession := by unfold Oidc.Shapes.Text_SessionManager_GetSession; rfl
+theorem text_SessionManager_getTokenChunkSessions_ok : Oidc.Shapes.Text_SessionManager_getTokenChunkSessions := by unfold Oidc.Shapes.Text_SessionManager_getTokenChunkSessions; rfl
+theorem text_SessionData_GetAccessToken_ok : Oidc.Shapes.Text_SessionData_GetAccessToken := by unfold Oidc.Shapes.Text_SessionData_GetAccessToken; rfl
+theorem text_SessionData_GetAuthenticated_ok : Oidc.Shapes.Text_SessionData_GetAuthenticated := by unfold Oidc.Shapes.Text_SessionData_GetAuthenticated; rfl
 
 end Oidc.Props.C04
